@@ -85,4 +85,43 @@ def byteWindows (lens : List Nat) (maxB ctx : Nat) : Except WinErr (List Win) :=
 
 def fullWindows (lens : List Nat) : List Win := [mkWin lens 0 0 lens.length lens.length]
 
+/-! ### relational acceptance: the property does not fix the window lengths -/
+
+/-- the windows partition `[ws, n)`: each starts where the previous ended, none is empty, the last ends at `n` -/
+def tilesB (n : Nat) : Nat → List Win → Bool
+  | ws, [] => ws == n
+  | ws, w :: rest => w.wStart == ws && decide (w.wStart < w.wEnd) && decide (w.wEnd ≤ n) && tilesB n w.wEnd rest
+
+/-- the context contains its window, lies inside the text, and the byte fields are the byte offsets of the
+character fields -/
+def ctxOkB (lens : List Nat) (w : Win) : Bool :=
+  decide (w.ctxStart ≤ w.wStart) && decide (w.wEnd ≤ w.ctxEnd) && decide (w.ctxEnd ≤ lens.length) &&
+  w.bCtxStart == byteOf lens w.ctxStart && w.bWStart == byteOf lens w.wStart &&
+  w.bWEnd == byteOf lens w.wEnd && w.bCtxEnd == byteOf lens w.ctxEnd
+
+/-- the function model's answer for the three kinds (0 characters, 1 bytes, 2 full) -/
+def windowsModel (kind : Nat) (lens : List Nat) (maxLen ctx : Nat) : Except WinErr (List Win) :=
+  match kind with
+  | 0 => charWindows lens maxLen ctx
+  | 1 => byteWindows lens maxLen ctx
+  | _ => if lens.isEmpty then .ok [emptyWin] else .ok (fullWindows lens)
+
+/-- is the observation (`some windows`, or `none` = an error) an answer `windows(s, cfg)` may give for a NON-EMPTY
+text?  The property: the windows tile the characters, every context contains its window and stays within the
+configured maximum, byte and character boundaries denote the same positions; an impossible configuration
+(`max ≤ 2·context`) or a character that cannot fit yields an error.  How long the windows are is not fixed, so a
+character wider than `max − 2·context` bytes may either be refused or (if the window it falls into is long
+enough) accepted. -/
+def windowsAccept (kind : Nat) (lens : List Nat) (maxLen ctx : Nat) (obs : Option (List Win)) : Bool :=
+  match obs with
+  | some ws =>
+    (kind ≥ 2 || decide (2 * ctx < maxLen)) &&
+    tilesB lens.length 0 ws && ws.all (ctxOkB lens) &&
+    (match kind with
+     | 0 => ws.all (fun w => decide (w.ctxEnd - w.ctxStart ≤ maxLen))
+     | 1 => ws.all (fun w => decide (w.bCtxEnd - w.bCtxStart ≤ maxLen))
+     | _ => ws.length == 1)
+  | none =>
+    kind < 2 && (decide (maxLen ≤ 2 * ctx) || (kind == 1 && lens.any (fun l => decide (maxLen - 2 * ctx < l))))
+
 end Tu
